@@ -10,6 +10,10 @@
 //   - env (env_test.go): OTEL_RESOURCE_ATTRIBUTES rendered from a generated map
 //     by a reference percent-encoder, plus malformed pairs and
 //     OTEL_SERVICE_NAME, must decode to exactly the generated map.
+//   - env_seq (env_seq_test.go): chains of 2..4 environments used one after
+//     the other in ONE process, each sharing the list or the service name with
+//     its predecessor and differing in the rest; every result is judged against
+//     the model of its own environment (no state may leak between builds).
 //   - detect_fold (detect_test.go): resource.Detect / resource.New over
 //     generated lists of fake detectors must equal the left fold of the merge
 //     model over the detectors whose resource is to be kept.
